@@ -299,10 +299,44 @@ def check_C03(tier, seed):
                 c.eval('(list ' + ' '.join("(if (boundp '%s) %s 'unbound)" % (v, v) for v in allvars[i]) + ')')
                 c.meta = {'under': int(tl[k - 1].split(':')[0]) in under}
                 cases.append(c)
+    # arity errors raised while the parameters are being bound, on every call path (evaluating and not): the
+    # parameters must not stay bound.  p q o1 more hold known global values before the failing request.
+    plists = ['(p)', '(p q)', '(p &optional q)', '(p q &optional o1)', '(p q &rest more)', '(p &optional q &rest more)', '(&optional p q)', '()']
+    arglists = ['', '1', '1 2', '1 2 3', '1 2 3 4']
+    avars = ['p', 'q', 'o1', 'more']
+    na = 0
+    for pl in plists:
+        for al in arglists:
+            lst = "'(" + al + ")"
+            paths = ["((lambda %s (list p)) %s)" % (pl, al), "(funcall (lambda %s 1) %s)" % (pl, al), "(defun af %s 1) (af %s)" % (pl, al), "(defun af %s 1) (funcall 'af %s)" % (pl, al),
+                     "(defmacro am %s 1) (eval '(am %s))" % (pl, al), "(defmacro am %s 1) (macroexpand '(am %s))" % (pl, al),
+                     # a self tail call (trampoline bounce) with these arguments, entered with a valid argument list
+                     "(setq cnt 0) (defun af %s (setq cnt (1+ cnt)) (if (> cnt 1) 'done (af %s))) (af %s)" % (pl, al, ' '.join('1' for w in pl.strip('()').split('&')[0].split()))]
+            if al in ('1', '1 2'):
+                paths += ["(mapcar (lambda %s 1) %s)" % (pl, lst), "(seq-filter (lambda %s t) %s)" % (pl, lst), "(seq-find (lambda %s t) %s)" % (pl, lst),
+                          "(seq-reduce (lambda %s 1) %s 0)" % (pl, lst), "(sort (list 3 1 2) (lambda %s t))" % pl, "(defun af %s 1) (mapcar 'af %s)" % (pl, lst),
+                          "(assoc 1 '((1 . 2)) (lambda %s t))" % pl]
+            for pth in paths:
+                c = Case('ar%d' % na); na += 1
+                c.eval("(setq p 10) (setq q 20) (setq o1 30) (setq more 40)")
+                c.eval(pth); c.vars(avars)
+                c.eval("(list p q o1 more)")
+                c.meta = {'under': False}
+                cases.append(c)
+    res.cov['arity_cases'] = na
     impl, model, dis = differential(res, cases)
     # model-free oracle on the implementation
     byid = {c.cid: c for c in cases}
     nbad = 0
+    for c in cases:
+        if not c.cid.startswith('ar'): continue
+        ls = impl.get(c.cid, [])
+        if len(ls) >= 4 and nbad < 10:
+            _, kind, payload, _ = core.parse_line(ls[3])
+            if kind != 'V' or unhx(payload) != '(10 20 30 40)':
+                nbad += 1
+                res.violation('stale-binding', {'requests': c.readable(), 'line': decode_line(ls[3]), 'oracle': 'a call that fails or succeeds leaves the global values of its parameter symbols visible',
+                                                'raw_case': c.text()})
     distinct = set()
     for c in cases:
         ls = impl.get(c.cid, [])
@@ -1755,6 +1789,13 @@ def check_C09(tier, seed):
     rng = random.Random(seed)
     n = tier_n(tier, 2500, 60000)
     vals = [data.gen_value(rng, rng.choice([0, 1, 2, 3])) for _ in range(n)]
+    # literals of different types with the same spelling in one text (integer / string / float / symbol-looking string)
+    for _ in range(tier_n(tier, 120, 2000)):
+        z = rng.choice([0, 1, -1, 42, -7, 2**63 - 1, -2**63, rng.randrange(-1000, 1000)])
+        f = rng.choice([1.5, -0.5, 2.0, 100.0])
+        pool = [z, data.Str(str(z)), f, data.Str(data.fmt_float(f)), 'a', data.Str('a'), data.Str('nil'), None, data.Str('t'), True, z, data.Str(str(z))]
+        its = [rng.choice(pool) for _ in range(rng.choice([2, 3, 5]))]
+        vals.append(its if rng.random() < 0.7 else data.Dot(its[:-1], its[-1] if its[-1] is not None else 0))
     # --- A: reading, in many layouts
     cases = []; metas = []
     for i, v in enumerate(vals):
@@ -1884,6 +1925,7 @@ C10_KINDS = [
     ('0.0', '0.0'), ('-0.0', '-0.0'), ('1.5', '1.5'), ('inf', 'vinf'), ('nan', 'vnan'), ('str', '"s"'), ('sym', "'a"), ('kw', ':k'),
     ('list', "'(1 2 3)"), ('dotted', "'(1 . 2)"), ('alist', "'((a . 1) (b . 2))"), ('lambda', '(lambda (p) p)'), ('func', 'car'), ('macro', 'when'),
     ('htab', 'vh'), ('box', 'vbox'), ('selfsym', 'vs'), ('big', '4611686018427387904'),
+    ('empty-str', '""'), ('uni-str', '"\u00e9%\u00e9\u6f22 %"'),
 ]
 C10_PRELUDE = "(setq vinf (expt 10.0 1000)) (setq vnan (- vinf vinf)) (setq vh (make-hash-table)) (setq vbox (host-box)) (setq vs 'vs) (setq a 1)"
 
@@ -1926,6 +1968,16 @@ def check_C10(tier, seed):
               "(intern \"\")", "(make-symbol \"\")", "(eval '(1 2))", "(eval ''a)", "(macroexpand '(when))", "(macroexpand '(-> ))", "(setq x '(progn (macroexpand x))) (eval x)", "(setq x (list 'append 'x)) (eval x)",
               "(setq l '(1 2)) (append l l)", "(setq l '(1 2)) (equal l l)", "(setq s 'q) (append s s)", "(let ((l (list 1 2))) (sort l (lambda (a b) (append l l) nil)))"]
     for sh in shapes: items.append((sh, {'name': 'shape'}))
+    # format: every directive character (ASCII and multi-byte), in every position, with every kind of argument
+    dchars = ['d', 's', 'S', 'f', '%', 'c', 'x', 'e', 'g', ' ', '-', '5', '.', '\\n', '\\"', '\u00e9', '\u20ac', '\u6f22', '\U0001F600', '']
+    for dc in dchars:
+        for fs in ('%' + dc, 'a%' + dc + 'b', '\u00e9%' + dc, '%' + dc + '%' + dc, '%d%' + dc):
+            items.append(('(format "%s")' % fs, {'name': 'format-directive'}))
+            for a in kinds: items.append(('(format "%s" %s %s)' % (fs, a, a), {'name': 'format-directive'}))
+    # other string consumers on empty / multi-byte text
+    for s_ in ('""', '"\u00e9"', '"a\u6f22"', '"\U0001F600\U0001F600"'):
+        for fn in ('intern', 'make-symbol', 'concat', 'string<', 'string>', 'string=', 'prin1-to-string', 'princ', 'length', 'load', 'gensym', 'format'):
+            items.append(('(%s %s)' % (fn, s_), {'name': 'string-arg'})); items.append(('(%s %s %s)' % (fn, s_, s_), {'name': 'string-arg'}))
     full = [(C10_PRELUDE + ' ' + t, m) for t, m in items]
     res.cov['programs'] = len(full)
     # debug vs model, then release vs debug
